@@ -427,8 +427,11 @@ func (r *runner) handleInterrupt(
 		Inputs:         make(map[string]any),
 		SkipPreHandler: map[string]bool{},
 	}
-	if state, ok := ctx.Value(stateKey{}).(*internalState); ok {
-		cp.State = state.state
+	// only a graph that owns a state saves it: a stateless graph nested in a stateful one sees its parent's state here
+	if r.runCtx != nil {
+		if state, ok := ctx.Value(stateKey{}).(*internalState); ok {
+			cp.State = state.state
+		}
 	}
 	intInfo := &InterruptInfo{
 		State:       cp.State,
@@ -507,8 +510,11 @@ func (r *runner) handleInterruptWithSubGraphAndRerunNodes(
 		SkipPreHandler: skipPreHandler,
 		SubGraphs:      make(map[string]*checkpoint),
 	}
-	if state, ok := ctx.Value(stateKey{}).(*internalState); ok {
-		cp.State = state.state
+	// only a graph that owns a state saves it: a stateless graph nested in a stateful one sees its parent's state here
+	if r.runCtx != nil {
+		if state, ok := ctx.Value(stateKey{}).(*internalState); ok {
+			cp.State = state.state
+		}
 	}
 	intInfo := &InterruptInfo{
 		State:      cp.State,
